@@ -412,3 +412,172 @@ pub fn cmd_dump(args: &[String]) -> i32 {
   }
   0
 }
+
+// ------------------------------------------------------------------------------------------
+// server read-back: router table, IntoResponse arms, handler error mapping
+// ------------------------------------------------------------------------------------------
+
+fn method_chain(e: &Expr, out: &mut Vec<(String, String)>) -> Result<(), String> {
+  // get(h::<S>).post(h2::<S>)  ==> MethodCall{receiver: Call(get, [h]), method: post, args: [h2]}
+  match e {
+    Expr::MethodCall(mc) => {
+      method_chain(&mc.receiver, out)?;
+      if mc.args.len() != 1 {
+        return Err(format!("route chain arg count in {}", toks(e)));
+      }
+      out.push((mc.method.to_string(), toks(&mc.args[0]).replace("::<S>", "")));
+      Ok(())
+    }
+    Expr::Call(c) => {
+      if c.args.len() != 1 {
+        return Err(format!("route call arg count in {}", toks(e)));
+      }
+      out.push((toks(&*c.func), toks(&c.args[0]).replace("::<S>", "")));
+      Ok(())
+    }
+    _ => Err(format!("unsupported route expr {}", toks(e))),
+  }
+}
+
+fn router_routes(e: &Expr, out: &mut Vec<Value>) -> Result<(), String> {
+  // Router::new().route(p, chain).route(..).with_state(service)
+  if let Expr::MethodCall(mc) = e {
+    router_routes(&mc.receiver, out)?;
+    match mc.method.to_string().as_str() {
+      "route" => {
+        if mc.args.len() != 2 {
+          return Err("route arg count".into());
+        }
+        let Expr::Lit(syn::ExprLit { lit: syn::Lit::Str(p), .. }) = &mc.args[0] else { return Err("route path not a literal".into()) };
+        let mut chain = vec![];
+        method_chain(&mc.args[1], &mut chain)?;
+        out.push(json!({"path": p.value(), "handlers": chain.iter().map(|(f, h)| json!([f, h])).collect::<Vec<_>>()}));
+        Ok(())
+      }
+      "with_state" => Ok(()),
+      m => Err(format!("unexpected router method {m}")),
+    }
+  } else if toks(e) == "Router::new()" {
+    Ok(())
+  } else {
+    Err(format!("unexpected router expr {}", toks(e)))
+  }
+}
+
+pub fn server_of_dir(dir: &str) -> Value {
+  let mut res = serde_json::Map::new();
+  res.insert("dir".into(), json!(dir));
+  let server = format!("{dir}/server.rs");
+  let types = format!("{dir}/types.rs");
+  match fs::read_to_string(&server).map_err(|e| e.to_string()).and_then(|s| syn::parse_file(&s).map_err(|e| e.to_string())) {
+    Err(e) => {
+      res.insert("error".into(), json!(format!("server.rs: {e}")));
+    }
+    Ok(file) => {
+      let mut routes = vec![];
+      let mut handlers = serde_json::Map::new();
+      let mut trait_methods = vec![];
+      for it in &file.items {
+        match it {
+          Item::Fn(f) if f.sig.ident == "router" => {
+            if let Some(Stmt::Expr(e, None)) = f.block.stmts.last() {
+              if let Err(e) = router_routes(e, &mut routes) {
+                res.insert("router_error".into(), json!(e));
+              }
+            }
+          }
+          Item::Fn(f) => {
+            let body = toks(&*f.block);
+            handlers.insert(f.sig.ident.to_string(), json!({
+              "err_500": body.split("Err(e)=>").nth(1).is_some_and(|r| r.trim_start_matches('{').starts_with("(axum::http::StatusCode::INTERNAL_SERVER_ERROR,")),
+              "extractors": f.sig.inputs.iter().map(|a| toks(a)).collect::<Vec<_>>(),
+            }));
+          }
+          Item::Trait(t) => {
+            for ti in &t.items {
+              if let syn::TraitItem::Fn(m) = ti {
+                let doc: Vec<String> = m.attrs.iter().filter_map(|a| match &a.meta {
+                  syn::Meta::NameValue(nv) if a.path().is_ident("doc") => match &nv.value {
+                    Expr::Lit(syn::ExprLit { lit: syn::Lit::Str(s), .. }) => Some(s.value()),
+                    _ => None,
+                  },
+                  _ => None,
+                }).collect();
+                trait_methods.push(json!({"name": m.sig.ident.to_string(), "doc": doc}));
+              }
+            }
+          }
+          _ => {}
+        }
+      }
+      res.insert("routes".into(), json!(routes));
+      res.insert("handlers".into(), Value::Object(handlers));
+      res.insert("trait_methods".into(), json!(trait_methods));
+    }
+  }
+  match fs::read_to_string(&types).map_err(|e| e.to_string()).and_then(|s| syn::parse_file(&s).map_err(|e| e.to_string())) {
+    Err(e) => {
+      res.insert("types_error".into(), json!(e));
+    }
+    Ok(file) => {
+      let mut into = serde_json::Map::new();
+      let mut enums = serde_json::Map::new();
+      for it in &file.items {
+        if let Item::Impl(imp) = it {
+          let tr = imp.trait_.as_ref().map(|(_, p, _)| toks(p));
+          if tr.as_deref() == Some("IntoResponse") {
+            let mut arms = vec![];
+            for ii in &imp.items {
+              if let ImplItem::Fn(f) = ii {
+                if let Some(Stmt::Expr(Expr::Match(m), _)) = f.block.stmts.last() {
+                  for arm in &m.arms {
+                    let pat = toks(&arm.pat);
+                    let mut body = toks(&*arm.body);
+                    if body.starts_with('{') && body.ends_with('}') {
+                      body = body[1..body.len() - 1].to_string();
+                    }
+                    let variant = pat.trim_start_matches("Self::").split('(').next().unwrap_or("").to_string();
+                    let (status, enc) = if let Some(r) = body.strip_prefix("(").and_then(|b| b.strip_suffix(").into_response()")) {
+                      let r = r.trim_end_matches(',');
+                      match r.rsplit_once(",") {
+                        Some((st, payload)) => (st.to_string(), payload.split('(').next().unwrap_or("").to_string()),
+                        None => (r.to_string(), String::new()),
+                      }
+                    } else {
+                      (body.trim_end_matches(".into_response()").to_string(), String::new())
+                    };
+                    arms.push(json!({"variant": variant, "status": status, "encoder": enc}));
+                  }
+                }
+              }
+            }
+            into.insert(toks(&*imp.self_ty), json!(arms));
+          }
+        }
+        if let Item::Enum(e) = it {
+          let vs: Vec<Value> = e.variants.iter().map(|v| {
+            let doc: Vec<String> = v.attrs.iter().filter_map(|a| match &a.meta {
+              syn::Meta::NameValue(nv) if a.path().is_ident("doc") => match &nv.value {
+                Expr::Lit(syn::ExprLit { lit: syn::Lit::Str(s), .. }) => Some(s.value()),
+                _ => None,
+              },
+              _ => None,
+            }).collect();
+            json!({"name": v.ident.to_string(), "doc": doc, "payload": match &v.fields { syn::Fields::Unit => Value::Null, f => json!(f.iter().map(|x| toks(&x.ty)).collect::<Vec<_>>().join(",")) }})
+          }).collect();
+          enums.insert(e.ident.to_string(), json!(vs));
+        }
+      }
+      res.insert("into_response".into(), Value::Object(into));
+      res.insert("enums".into(), Value::Object(enums));
+    }
+  }
+  Value::Object(res)
+}
+
+pub fn cmd_server(args: &[String]) -> i32 {
+  for d in files_from_args(args) {
+    println!("{}", server_of_dir(&d));
+  }
+  0
+}
